@@ -5,7 +5,7 @@ BESS stand-in is written as one JSON line (no expectations are computed here).
 
 usage: c20_host.py <repo> <out.ndjson> <tier> <seed> <shard> <nshards>
 """
-import errno as _errno, importlib.util, itertools, json, logging, random, sys, types
+import errno as _errno, importlib.util, itertools, json, logging, random, sys, threading, time as _time, types
 
 repo, out_path, tier, seed, shard, nshards = sys.argv[1], sys.argv[2], sys.argv[3], int(sys.argv[4]), int(sys.argv[5]), int(sys.argv[6])
 
@@ -33,11 +33,15 @@ class BESS:
         self.static = set(self.routes) | {i + "Merge" for i in ifaces}
         self.paused = 0
         self.calls = 0
+        self.hook = None                                      # called at the start of every command (concurrent deliveries)
+    def _enter(self):
+        if self.hook: self.hook()
     def is_connected(self): return True
     def connect(self, grpc_url=None): pass
     def pause_all(self): self.paused += 1
     def resume_all(self): self.paused -= 1
     def run_module_command(self, name, cmd, argtype, arg):
+        self._enter()
         self.calls += 1
         if name not in self.routes:
             raise BessError(_errno.ENOENT, "no module " + name)
@@ -51,17 +55,20 @@ class BESS:
         else:
             raise BessError(_errno.EINVAL, cmd)
     def create_module(self, mclass, name, arg):
+        self._enter()
         self.calls += 1
         if name in self.modules or name in self.static:
             raise BessError(_errno.EEXIST, "exists")
         self.modules[name] = arg["fields"][0]["value"]
     def destroy_module(self, name):
+        self._enter()
         self.calls += 1
         if name not in self.modules:
             raise BessError(_errno.ENOENT, "no module " + name)
         del self.modules[name]
         self.links = {k: v for k, v in self.links.items() if k[0] != name and v[0] != name}
     def connect_modules(self, m1, m2, ogate=0, igate=0):
+        self._enter()
         self.calls += 1
         for m in (m1, m2):
             if m not in self.modules and m not in self.static:
@@ -157,6 +164,48 @@ def run_sequence(evs):
             break
     seqs += 1
 
+def deliver(ctl, ndb, ev):
+    """one kernel event into the handler; returns the trace line (without graph)"""
+    try:
+        if ev[0] == "NN":
+            ndb.table.append({"dst": ev[1], "lladdr": ev[2]})
+            ctl._netlink_neighbor_handler(None, {"event": "RTM_NEWNEIGH", "attrs": [("NDA_DST", ev[1]), ("NDA_LLADDR", ev[2])]})
+            return {"op": "neigh", "nh": ev[1], "mac": ev[2].replace(":", "").upper()}
+        kind = "RTM_NEWROUTE" if ev[0] == "NR" else "RTM_DELROUTE"
+        ctl._netlink_route_handler(None, route_msg(kind, ndb, ev[1], ev[2], ev[3], ev[4]))
+        return {"op": "newroute" if ev[0] == "NR" else "delroute", "iface": ev[1], "prefix": ev[2], "len": ev[3], "nh": ev[4]}
+    except Exception as e:
+        return {"op": "raised", "what": type(e).__name__ + ": " + str(e), "event": list(ev)}
+
+def run_pair(prefix, ev1, ev2):
+    """the kernel delivers ev1 and ev2 on two threads: ev1's handler is held inside its first BESS command while ev2 is
+    delivered (a handler that takes the controller's lock waits; one that does not runs into the half-done state); the
+    state after both is recorded as ONE line {"op":"pair","evs":[..],"g":..} - the two events commute in the kernel"""
+    global seqs
+    ctl, ndb, b = fresh()
+    emit({"op": "reset", "managed": MANAGED})
+    for ev in prefix:
+        line = deliver(ctl, ndb, ev); line["g"] = graph(b); emit(line)
+        if line["op"] == "raised": return
+    parked, release, res = threading.Event(), threading.Event(), {}
+    def hook():
+        if threading.current_thread() is ta and not parked.is_set():
+            parked.set(); release.wait(5.0)
+    ta = threading.Thread(target=lambda: res.__setitem__(1, deliver(ctl, ndb, ev1)))
+    tb = threading.Thread(target=lambda: res.__setitem__(2, deliver(ctl, ndb, ev2)))
+    b.hook = hook
+    ta.start()
+    while ta.is_alive() and not parked.is_set(): _time.sleep(0.0005)
+    tb.start(); tb.join(0.04)
+    release.set(); ta.join(10); tb.join(10)
+    b.hook = None
+    l1, l2 = res.get(1, {"op": "raised", "what": "hung", "event": list(ev1)}), res.get(2, {"op": "raised", "what": "hung", "event": list(ev2)})
+    for x in (l1, l2):
+        if x["op"] == "raised":
+            x["g"] = graph(b); emit(x); return
+    emit({"op": "pair", "evs": [l1, l2], "held": parked.is_set(), "g": graph(b)})
+    seqs += 1
+
 MAC = {"10.0.0.1": "aa:bb:cc:00:00:01", "10.0.0.2": "aa:bb:cc:00:00:02", "10.0.1.1": "aa:bb:cc:00:01:01"}
 ROUTES = [("access", "192.168.1.0", 24, "10.0.0.1"), ("access", "192.168.2.0", 24, "10.0.0.1"), ("access", "0.0.0.0", 0, "10.0.0.2"),
           ("core", "172.16.0.0", 16, "10.0.1.1")]
@@ -203,6 +252,27 @@ for k in range(40 if tier == "quick" else 1500):
             nh = rng.choice(sorted(MAC))
             if nh not in known: known.add(nh); h.append(("NN", nh, MAC[nh]))
     run_sequence(h)
+
+# pairs of events delivered at the same time (the handlers run on pyroute2's callback threads and on the ping thread):
+# random kernel-consistent prefix, then two events that are both possible after it and commute in the kernel
+def enabled(present, known):
+    evs = [("DR",) + r for r in sorted(present)] + [("NR",) + r for r in ROUTES if r not in present]
+    return evs + [("NN", nh, MAC[nh]) for nh in sorted(MAC) if nh not in known]
+prng = random.Random(seed * 7919 + shard)
+for k in range(60 if tier == "quick" else 1200):
+    present, known, h = set(), set(), []
+    for _ in range(prng.randint(1, 5)):
+        ev = prng.choice(enabled(present, known)); h.append(ev)
+        if ev[0] == "NR": present.add(ev[1:])
+        elif ev[0] == "DR": present.discard(ev[1:])
+        else: known.add(ev[1])
+    cands = enabled(present, known)
+    # ev1 should have something to install: a neighbour with waiting routes, or a route through a resolved next hop
+    busy = [e for e in cands if (e[0] == "NN" and any(r[3] == e[1] for r in present)) or (e[0] == "NR" and e[4] in known)]
+    if not busy or len(cands) < 2: continue
+    ev1 = prng.choice(busy)
+    ev2 = prng.choice([e for e in cands if e != ev1])
+    run_pair(h, ev1, ev2)
 
 out.close()
 json.dump({"lines": lines, "seqs": seqs}, open(out_path + ".summary", "w"))
